@@ -27,7 +27,9 @@ mod verif_rt;
 
 use mc::ev::{self, Reporter, Stats, Tier};
 
-const REAL_BIN: &str = "/verif/harness/target/fstbin/release/fst";
+fn real_bin() -> String {
+    format!("{}/harness/target/fstbin/release/fst", ev::verif_dir())
+}
 
 #[derive(Clone, Debug, PartialEq, Eq)]
 struct Job {
@@ -335,11 +337,11 @@ fn run_real(job: &Job) -> Result<(), String> {
     let inputs = write_inputs(job, &format!("r{:?}", std::thread::current().id()).replace(['(', ')'], ""));
     let out = format!("{}/real-{:?}.fst", workdir(), std::thread::current().id()).replace(['(', ')'], "");
     let args = cli_args(job, &inputs, &out, false);
-    let o = std::process::Command::new(REAL_BIN)
+    let o = std::process::Command::new(real_bin())
         .args(&args[1..])
         .env("TMPDIR", workdir())
         .output()
-        .map_err(|e| format!("machinery: cannot run {}: {}", REAL_BIN, e))?;
+        .map_err(|e| format!("machinery: cannot run {}: {}", real_bin(), e))?;
     if !o.status.success() {
         return Err(format!("real binary exited with {:?}: {}", o.status.code(), String::from_utf8_lossy(&o.stderr)));
     }
@@ -635,7 +637,7 @@ fn main() {
     st.samples.push(json!({"example_union_groupings": all_groupings.iter().take(4).collect::<Vec<_>>()}));
 
     // ---- (2) the real binary, free-running
-    if std::path::Path::new(REAL_BIN).exists() {
+    if std::path::Path::new(&real_bin()).exists() {
         std::env::set_var("TMPDIR", workdir());
         std::fs::create_dir_all(workdir()).unwrap();
         let real: Vec<&Job> = gjobs.iter().filter(|j| tier == Tier::Thorough || (j.files[0].len() == 3 && j.threads != 1 && j.fd <= 3) || j.files.len() == 2).collect();
@@ -667,7 +669,7 @@ fn main() {
         e.1 += 1;
         let _ = std::fs::remove_dir_all(workdir());
     } else {
-        eprintln!("machinery: {} is missing (run ./setup.sh)", REAL_BIN);
+        eprintln!("machinery: {} is missing (run ./setup.sh)", real_bin());
         std::process::exit(2);
     }
 
